@@ -357,6 +357,8 @@ def execute(plan):
             d2 = 10 ** rs.uniform(lo, hi, size=(3, 4))
             if model != "metis" and rs.rand() < 0.5:
                 d2[int(rs.randint(0, 3)), int(rs.randint(0, 4))] = 10 ** rs.uniform(-9, -5)     # certainly too small for most parameter sets
+                if rs.rand() < 0.4:
+                    d2[int(rs.randint(0, 3)), int(rs.randint(0, 4))] = 0.0                     # a user standing AT the base station: distance exactly 0
             ref2 = reference_dB(model, st, plan["cfg"], d2, 0)
             neg2 = ref2 < 0
             tol2 = 0.011 if (model == "freespace" and st.get("n") == 2.0) else 1e-6
